@@ -156,7 +156,16 @@ def chunks9 : Nat → List String → List (List String)
   | fuel + 1, l => l.take 9 :: chunks9 fuel (l.drop 9)
 
 def handleSeq (mode : String) (reg : List Svc) (paths : List Bytes) (obs : List String) : String × String :=
-  let answers := Proc.answers ⟨[⟨reg, [], .unimplemented⟩]⟩ (usesOf mode paths)
+  let uses := usesOf mode paths
+  let answers :=
+    if mode.startsWith "grow" then
+      -- the first half is registered, the requests are asked, the rest is added one by one, the
+      -- requests are asked again: the harness reports the second round
+      let t0 : Table := ⟨reg.take (reg.length / 2), [], .unimplemented⟩
+      match reg.drop (reg.length / 2) with
+      | [] => Proc.answers ⟨[t0]⟩ uses
+      | s :: more => (Proc.rounds t0 ((uses, s) :: more.map (fun x => ([], x))) uses).drop paths.length
+    else Proc.answers ⟨[⟨reg, [], .unimplemented⟩]⟩ uses
   let model := String.intercalate " " (answers.map (fun pa => render pa.2))
   if hasDup (reg.map Svc.name) then (model, "ok") else
   let recs := chunks9 (obs.length + 1) obs
